@@ -11,9 +11,7 @@ where
     let Some(var_type) = lhs.mut_element_type() else {
         return false;
     };
-    let can_be_used = can_be_used(&var_type, &rhs);
-    let return_type = return_type(&var_type, &rhs);
-    can_be_used && return_type.matches(&var_type)
+    can_be_used(&var_type, &rhs) && return_type(&var_type, &rhs).matches(&var_type)
 }
 
 pub fn exec<T: FnOnce(Variable, Variable) -> Variable>(
